@@ -44,7 +44,7 @@ CHECKS = {
          "clear sign bit. The Lean parser, SHA-256d (native) and serialiser are an independent implementation: every synthetic transaction (independent "
          "harness serialiser; empty/one-byte/non-standard scripts, coinbase, counts across 252/253), the repository's raw vectors and every transaction "
          "of real mainnet blocks (250000, 330000; thorough: 625007, 629999, 722010 = 8469 transactions) is parsed by both; fields, txid, block hash, "
-         "target, both block readers and byte-exact re-serialisation are compared. Found and fixed through this check: F31, F32, F30a; listed: F02, F30."),
+         "target, both block readers and byte-exact re-serialisation are compared. Found and fixed through this check: F31, F32, F30a, F49 (segwit coinbase with an arbitrary reserved value); listed: F02, F30."),
    design_ref='DESIGN.md §5 C06',
    note=COMMON_NOTE + "SHA-256 is executable reference code validated by vectors and by agreement with hashlib on every case (nothing is proved about it). "
         "strict=True refusals of non-standard content are counted, not violations."),
@@ -57,7 +57,7 @@ CHECKS = {
          "computed from the harness's own serialisation, script code and amount - never from the library's bytes - and compared with "
          "Transaction.signature_hash for every input of API-built transactions over 8 spend kinds, all networks, counts across 252/253, m-of-n to 15; "
          "then the library signs and every signature is verified by the Lean ECDSA against the Lean digest (valid on the real network, not merely "
-         "self-consistent). Found and fixed through this check: F33."),
+         "self-consistent). Found and fixed through this check: F33, F45 (P2SH-P2WPKH input with a caller-supplied locking script)."),
    design_ref='DESIGN.md §5 C01',
    note=COMMON_NOTE + "secp256k1 arithmetic and SHA-256 in the driver are executable reference code (validated by vectors / agreement with the library), not verified. "
         "FindAndDelete/OP_CODESEPARATOR are not modelled; the library does not implement legacy non-ALL hash types (it refuses to sign them)."),
@@ -184,7 +184,7 @@ CHECKS = {
          "round(), %.Nf) reproduces the library's pipelines digit for digit and is itself validated against CPython on every run. Compared: integer "
          "-> Value -> integer on 0..20000, 10^k+-1, 2^k+-1, the top of the range and random amounts (50k / thorough 300k), 8-decimal strings -> "
          "satoshi, library formatting parsed back, and formatting in every denominator symbol on every network against the exact decimal "
-         "specification. Listed: F14 (display in non-unit denominators is off for some large amounts; float design)."),
+         "specification; amount strings with every denominator symbol of the table are read back. Found and fixed: F46 (the da symbol). Listed: F14 (display in non-unit denominators is off for some large amounts; float design)."),
    design_ref='DESIGN.md §5 C17',
    note=COMMON_NOTE + "The standard model of floating-point arithmetic is a hypothesis of the theorem (it is not proved for the executable roundF64, which is validated against CPython instead). "
         "Where more than 8 decimals would be needed (denominators above the coin unit) any correct rounding of the last shown digit is accepted. Non-negativity of output and fee amounts is checked under C07."),
@@ -243,7 +243,7 @@ CHECKS = {
          "(fee, fee_per_kb, inputs, change amounts or the error kind; random.randint and numpy dirichlet draws recorded), sweep, "
          "Transaction.bumpfee and WalletTransaction.bumpfee (incl. the extra-input fallback). Every created transaction is additionally checked against the sentences of C07 on the objects and on the raw "
          "bytes parsed by the Lean parser (recipients once with exact script, other outputs to change keys, inputs distinct/unspent/confirmed, "
-         "signs and verifies). Found and fixed: F39, F41, F42; listed: F40 (invalid explicit input lists are accepted)."),
+         "signs and verifies). Found and fixed: F39, F41, F42, F48 (duplicate explicit inputs); listed: F40 (invalid explicit input lists are accepted)."),
    design_ref='DESIGN.md §5 C07',
    note=COMMON_NOTE + "Rows with equal (confirmations, value) may come back from SQLite in either order; selections differing only in such ties count as equal. send()'s fee re-estimation is exercised through C08 histories, not modelled."),
  'C09': dict(
@@ -274,7 +274,7 @@ CHECKS = {
          "ceremonies over all signer sequences (incl. a cosigner signing twice) with hand-off as object, dict and raw hex: after every step "
          "the number of signatures and verify() must equal the model, the redeem script of the spend must be the sorted-key script, and "
          "send(broadcast=True) must push iff at least m distinct cosigners signed. Found and fixed: F24 (dict hand-off), F25 (raw hand-off "
-         "broadcast a 2-of-2 with one signature); listed: F26 (raw hand-off loses partial signatures; never an under-signed broadcast)."),
+         "broadcast a 2-of-2 with one signature), F50 (dict hand-off dropped sequence numbers); listed: F26 (raw hand-off loses partial signatures; never an under-signed broadcast)."),
    design_ref='DESIGN.md §5 C10',
    note=COMMON_NOTE + "ECDSA validity of the individual signatures is C02/C13; here the signer set, its order-independence and the threshold are decided. n up to 15 is covered by the theorems (any n), the run stops at n = 5."),
 }
